@@ -3,16 +3,330 @@ package main
 // Rules of C08 added after the third round of independently authored breaking changes (DESIGN 11.10); wired in zzz_round3.go.
 
 import (
+	"go/token"
+
 	"golang.org/x/tools/go/ssa"
 )
 
 // ---- C08.A4: the scheme put into X-Forwarded-Proto is never the empty constant -------------------------------------
+//
+// The rule asks which values the operand of the X-Forwarded-Proto write can take and reports a constant "" among them.
+// The walk from the write back to the constants is PATH SENSITIVE, so that the usual spellings of "not found" in a
+// split-up scheme detector do not look like an empty scheme:
+//   - headerScheme(h) (proto string, ok bool) returning ("", false), the caller using proto only under ok: a return of
+//     the helper is followed only if its other results are compatible with what is known about them at the use
+//     (a bool result against a branch fact, an error / pointer result against a nil test);
+//   - headerScheme(h) string returning "" for "not found", the caller testing `p != ""` / `len(p) > 0` before using p,
+//     or replacing it (`if p == "" { p = connScheme(...) }`): a value that a fact on the path says is non-empty
+//     contributes nothing.
+// Facts are collected along the walk: the facts at the write (through its call chain), the facts at the predecessor
+// and the outcome of its branch when a merge is entered, the facts at the return when a helper is entered, the
+// facts at the call site when a parameter is followed to its arguments.
+
+// c08emptySrc is one place where the empty constant enters the value.
+type c08emptySrc struct {
+	pos  token.Pos
+	what string
+}
+
+type c08emptyWalk struct {
+	seen map[ssa.Value]bool
+	out  []c08emptySrc
+}
+
+// c08sameText: a and b are the same text value (through value-preserving conversions).
+func c08sameText(a, b ssa.Value) bool {
+	return a == b || c08strip(a) == c08strip(b)
+}
+
+// c08factKnows: one of the facts implies the atom.
+func c08factKnows(facts []c08fact, atom c08atom) bool {
+	for _, f := range facts {
+		if c08implies(f.Cond, f.Truth, f.ctx, atom, 0) {
+			return true
+		}
+	}
+	return false
+}
+
+// c08nonEmptyKnown: a fact says the text v is not empty.
+func c08nonEmptyKnown(v ssa.Value, facts []c08fact) bool {
+	return c08factKnows(facts, func(c ssa.Value, truth bool, _ c08ctx) bool {
+		empty, ok := c08emptyTest(c, truth, func(x ssa.Value) bool { return c08sameText(x, v) })
+		return ok && !empty
+	})
+}
+
+// c08boolKnown: a fact fixes the boolean v.
+func c08boolKnown(v ssa.Value, facts []c08fact) (val bool, ok bool) {
+	for _, want := range []bool{true, false} {
+		w := want
+		if c08factKnows(facts, func(c ssa.Value, truth bool, _ c08ctx) bool { return c == v && truth == w }) {
+			return w, true
+		}
+	}
+	return false, false
+}
+
+// c08nilKnown: a fact fixes whether v (an error, a pointer ...) is nil.
+func c08nilKnown(v ssa.Value, facts []c08fact) (isNil bool, ok bool) {
+	for _, want := range []bool{true, false} {
+		w := want
+		atom := func(c ssa.Value, truth bool, _ c08ctx) bool {
+			b, isB := c.(*ssa.BinOp)
+			if !isB || (b.Op != token.EQL && b.Op != token.NEQ) {
+				return false
+			}
+			var other ssa.Value
+			switch {
+			case isNilConst(b.Y):
+				other = b.X
+			case isNilConst(b.X):
+				other = b.Y
+			default:
+				return false
+			}
+			return other == v && ((b.Op == token.EQL) == truth) == w
+		}
+		if c08factKnows(facts, atom) {
+			return w, true
+		}
+	}
+	return false, false
+}
+
+// c08surelyNonNil: the value is never nil (a freshly made error / interface box / allocation).
+func c08surelyNonNil(v ssa.Value) bool {
+	switch x := v.(type) {
+	case *ssa.MakeInterface, *ssa.Alloc, *ssa.MakeClosure, *ssa.FieldAddr, *ssa.IndexAddr:
+		return true
+	case *ssa.Call:
+		switch calleeName(&x.Call) {
+		case "errors.New", "fmt.Errorf":
+			return true
+		}
+	}
+	return sentinelError(v) // var errNotFound = errors.New(...)
+}
+
+// c08returnFeasible: can the helper leave through ret when, at the use of result idx of its call, `facts` hold?
+// Decided on the sibling results: a constant bool / nil / surely non-nil sibling that contradicts a fact about the
+// caller's variable for it rules the return out. Returns the facts the return may assume about its own operands.
+func c08returnFeasible(call *ssa.Call, ret *ssa.Return, idx int, facts []c08fact, inner c08ctx) ([]c08fact, bool) {
+	refs := call.Referrers()
+	if refs == nil {
+		return nil, true
+	}
+	var assume []c08fact
+	for _, r := range *refs {
+		ex, ok := r.(*ssa.Extract)
+		if !ok || ex.Index == idx || ex.Index >= len(ret.Results) {
+			continue
+		}
+		res := ret.Results[ex.Index]
+		if c08isBoolType(ex.Type()) {
+			known, ok := c08boolKnown(ex, facts)
+			if !ok {
+				continue
+			}
+			if cb, isK := constBool(res); isK {
+				if cb != known {
+					return nil, false
+				}
+				continue
+			}
+			// a computed verdict: the return may assume it has the value the caller has seen
+			assume = append(assume, c08fact{Fact{res, known}, inner})
+			continue
+		}
+		isNil, ok := c08nilKnown(ex, facts)
+		if !ok {
+			continue
+		}
+		if isNilConst(res) && !isNil {
+			return nil, false
+		}
+		if c08surelyNonNil(res) && isNil {
+			return nil, false
+		}
+	}
+	return assume, true
+}
+
+// c08edgeFacts: the outcome of pred's own branch on the edge pred -> succ.
+func c08edgeFacts(pred, succ *ssa.BasicBlock, ctx c08ctx) []c08fact {
+	if len(pred.Instrs) == 0 || len(pred.Succs) != 2 || pred.Succs[0] == pred.Succs[1] {
+		return nil
+	}
+	iff, ok := pred.Instrs[len(pred.Instrs)-1].(*ssa.If)
+	if !ok {
+		return nil
+	}
+	var out []c08fact
+	for _, f := range appendCondFacts(nil, iff.Cond, pred.Succs[0] == succ, 0) {
+		out = append(out, c08fact{f, ctx})
+	}
+	return out
+}
+
+// walk: collect the empty constants that can flow into v, given the facts known on the way to its use.
+func (w *c08emptyWalk) walk(v ssa.Value, at token.Pos, ctx c08ctx, facts []c08fact, depth int) {
+	v, ctx = c08arg(v, ctx)
+	if v == nil || depth > 14 {
+		return
+	}
+	if s, isK := constString(v); isK {
+		if s == "" {
+			src := c08emptySrc{at, "the constant \"\""}
+			for _, o := range w.out {
+				if o == src {
+					return
+				}
+			}
+			w.out = append(w.out, src)
+		}
+		return
+	}
+	if w.seen[v] { // on the current path only: another path may know less about the value
+		return
+	}
+	w.seen[v] = true
+	defer delete(w.seen, v)
+	if c08nonEmptyKnown(v, facts) {
+		return
+	}
+	if v.Pos().IsValid() {
+		at = v.Pos()
+	}
+	switch x := v.(type) {
+	case *ssa.Phi:
+		for k, e := range x.Edges {
+			pred := x.Block().Preds[k]
+			f2 := append(append(append([]c08fact{}, facts...), c08localFacts(pred, ctx)...), c08edgeFacts(pred, x.Block(), ctx)...)
+			// a verdict merged at the same place (`proto, found = xfp, true` ... `if !found`): an edge on which the
+			// verdict is the opposite constant of what is known about it is not the way this value came
+			feasible := true
+			for _, i := range x.Block().Instrs {
+				y, isPhi := i.(*ssa.Phi)
+				if !isPhi {
+					break
+				}
+				if y == x || k >= len(y.Edges) || !c08isBoolType(y.Type()) {
+					continue
+				}
+				known, ok := c08boolKnown(y, facts)
+				if !ok {
+					continue
+				}
+				if cb, isK := constBool(y.Edges[k]); isK {
+					if cb != known {
+						feasible = false
+					}
+				} else {
+					f2 = append(f2, c08fact{Fact{y.Edges[k], known}, ctx})
+				}
+			}
+			if !feasible {
+				continue
+			}
+			pos := at
+			if n := len(pred.Instrs); n > 0 && pred.Instrs[n-1].Pos().IsValid() {
+				pos = pred.Instrs[n-1].Pos()
+			}
+			w.walk(e, pos, ctx, f2, depth+1)
+		}
+	case *ssa.UnOp:
+		if x.Op != token.MUL {
+			return
+		}
+		switch a := x.X.(type) {
+		case *ssa.Alloc:
+			// a local variable that lives in a cell (captured by a closure, address taken)
+			if a.Referrers() == nil {
+				return
+			}
+			for _, r := range *a.Referrers() {
+				if st, ok := r.(*ssa.Store); ok && st.Addr == a {
+					f2 := append(append([]c08fact{}, facts...), c08localFacts(st.Block(), ctx)...)
+					w.walk(st.Val, st.Pos(), ctx, f2, depth+1)
+				}
+			}
+		case *ssa.FieldAddr:
+			// a field of a small carrier type of the header code (forwarder.proto): what is stored into that field
+			// anywhere in package proxy and its sub-packages
+			for _, st := range c08storesToField(a.X.Type(), a.Field) {
+				w.walk(st.Val, st.Pos(), nil, append(append([]c08fact{}, facts...), c08facts(st.Block(), nil)...), depth+1)
+			}
+		}
+	case *ssa.Extract:
+		call, ok := x.Tuple.(*ssa.Call)
+		if !ok {
+			return
+		}
+		sc := call.Call.StaticCallee()
+		if sc == nil || !isRepoFn(sc) || len(sc.Blocks) == 0 {
+			return
+		}
+		inner := append(c08ctx{call}, ctx...)
+		eachInstr(sc, func(i ssa.Instruction) {
+			ret, ok := i.(*ssa.Return)
+			if !ok || x.Index >= len(ret.Results) {
+				return
+			}
+			assume, feasible := c08returnFeasible(call, ret, x.Index, facts, inner)
+			if !feasible {
+				return
+			}
+			f2 := append(append(append([]c08fact{}, facts...), c08localFacts(ret.Block(), inner)...), assume...)
+			w.walk(ret.Results[x.Index], ret.Pos(), inner, f2, depth+1)
+		})
+	case *ssa.Call:
+		sc := x.Call.StaticCallee()
+		if sc == nil || !isRepoFn(sc) || len(sc.Blocks) == 0 || sc.Signature.Results().Len() != 1 {
+			return
+		}
+		inner := append(c08ctx{x}, ctx...)
+		eachInstr(sc, func(i ssa.Instruction) {
+			if ret, ok := i.(*ssa.Return); ok && len(ret.Results) == 1 {
+				f2 := append(append([]c08fact{}, facts...), c08localFacts(ret.Block(), inner)...)
+				w.walk(ret.Results[0], ret.Pos(), inner, f2, depth+1)
+			}
+		})
+	case *ssa.Parameter:
+		// not resolvable through the chain: what the callers pass
+		idx := c08paramIndex(x)
+		for _, s := range c08sitesOf(x.Parent()) {
+			args := s.Common().Args
+			if idx < 0 || idx >= len(args) || s.Block() == nil {
+				continue
+			}
+			f2 := append(append([]c08fact{}, facts...), c08facts(s.Block(), nil)...)
+			w.walk(args[idx], s.Pos(), nil, f2, depth+1)
+		}
+	case *ssa.FreeVar:
+		fn := x.Parent()
+		if fn == nil || fn.Parent() == nil {
+			return
+		}
+		for k, fv := range fn.FreeVars {
+			if fv != x {
+				continue
+			}
+			eachInstr(fn.Parent(), func(i ssa.Instruction) {
+				if mc, ok := i.(*ssa.MakeClosure); ok && mc.Fn == fn && k < len(mc.Bindings) {
+					w.walk(mc.Bindings[k], mc.Pos(), nil, append([]c08fact{}, facts...), depth+1)
+				}
+			})
+		}
+	}
+}
 
 func runC08A4(c *Ctx) {
 	serve := c.method("proxy", "HTTPProxy", "ServeHTTP")
 	if serve == nil {
 		return
 	}
+	c08setCtx(c)
 	n := 0
 	// the header writes of the request path, with keys resolved through helper parameters (a generic
 	// setIfAbsent(h, key, value) is instantiated per call chain)
@@ -20,38 +334,19 @@ func runC08A4(c *Ctx) {
 		if w.key.kind != "const" || w.key.name != "X-Forwarded-Proto" || w.m == "Del" {
 			continue
 		}
-		val, _ := w.val()
+		val, vctx := w.val()
 		if val == nil {
 			continue
 		}
 		n++
-		for _, leaf := range valueLeaves(val) {
-			// a helper's value parameter: what its callers pass
-			if p, ok := leaf.(*ssa.Parameter); ok {
-				more := false
-				for k, q := range p.Parent().Params {
-					if q != p {
-						continue
-					}
-					for _, s := range gSites[p.Parent()] {
-						if args := s.Common().Args; k < len(args) {
-							for _, l2 := range valueLeaves(args[k]) {
-								if str, isK := constString(l2); isK && str == "" {
-									more = true
-								}
-							}
-						}
-					}
-				}
-				if more {
-					c.check("C08.A4", w.where()+"|X-Forwarded-Proto is never the empty text", w.instr.Pos(), false, "a caller passes the constant \"\" as the X-Forwarded-Proto value")
-				}
-				continue
-			}
-			s, isK := constString(leaf)
-			c.check("C08.A4", w.where()+"|X-Forwarded-Proto is never the empty text", w.instr.Pos(), !(isK && s == ""),
-				"one of the values the scheme detector can return is the constant \"\" (at "+c.pos(leaf.Pos())+"): when a client's Forwarded header carries no proto= parameter the scheme must fall back to the connection (TLS / websocket), not become empty — the upstream would receive 'X-Forwarded-Proto:' with no value on http, https and wss requests alike")
+		ew := &c08emptyWalk{seen: map[ssa.Value]bool{}}
+		ew.walk(val, w.instr.Pos(), vctx, c08facts(w.instr.Block(), w.ctx), 0)
+		why := ""
+		for _, src := range ew.out {
+			why += "; " + src.what + " reaches the write from " + c.pos(src.pos)
 		}
+		c.check("C08.A4", w.where()+"|X-Forwarded-Proto is never the empty text", w.instr.Pos(), len(ew.out) == 0,
+			"one of the values the X-Forwarded-Proto write can take is the constant \"\""+why+": when a client's Forwarded header carries no proto= parameter the scheme must fall back to the connection (TLS / websocket), not become empty — the upstream would receive 'X-Forwarded-Proto:' with no value on http, https and wss requests alike")
 	}
 	c.atLeast("C08.A4", "writes of X-Forwarded-Proto", n, 1)
 }
